@@ -43,6 +43,13 @@ CHECKS["C08"] = dict(
     note="Trusted: the world's TCP model. 2- and 3-cuts of long inputs are sampled, not enumerated.",
 )
 
+CHECKS["C14"] = dict(
+    level="exploration",
+    text="Seeded search over activity patterns relative to the idle time-out (one-sided traffic, transfers at the deadline +-1 ms, half-close, back-pressure stalls) and over connect/resolver durations around the establishment limit, on tokio's virtual clock where a week costs microseconds; the oracle is a closure-time window computed from the last transfer the world recorded, plus the socket census.",
+    design="DESIGN.md section 8 (C14)",
+    note="Trusted: tokio's paused clock (1 ms wheel). All time-outs carry a sub-millisecond fraction (DESIGN.md 3.2); durations within 3 ms of a limit are undecided.",
+)
+
 NOT_YET = {
 }
 
